@@ -11,13 +11,14 @@ import common  # noqa: E402
 from props.parts import sendflow  # noqa: E402
 
 CORPUS = os.path.join(common.VERIF, "corpus", "pair")
+STEPS = 30000
 THEOREMS = ["C01_send_split_preserves", "C01_wire_roundtrip", "C01_delivery_exactly_once", "C01_clean_end"]
 
 # ------------------------------------------------------------------------------------------------
 # pair: two real endpoints
 
 
-def run_pair(seed, n, steps=30000, first=0, events=False):
+def run_pair(seed, n, steps=STEPS, first=0, events=False):
     args = ["--seed", seed, "--n", n, "--first", first, "--steps", steps]
     if events:
         args += ["--events", 1]
@@ -64,6 +65,15 @@ def pair_oracle(case):
         d.update(kw)
         v.append(d)
 
+    # two endpoints of the same crate must agree on the wire format: a library connection error of the classes
+    # "you sent me garbage" means octets/frames were corrupted, lost or duplicated on the (lossless) path
+    for side, r in case.get("conn", {}).items():
+        if isinstance(r, str) and r.startswith("E(goaway,") and r.endswith(",library)"):
+            code = r.split(",")[1]
+            if code in ("1", "3", "6", "9"):
+                v.append({"why": "an endpoint ended the connection because the peer (the same crate) broke the protocol: "
+                                 "the message stream was corrupted on a lossless path", "side": side, "result": r})
+    quiescent = not case.get("finished") and case.get("steps", 0) < case.get("steps_budget", STEPS)
     for m in msgs:
         sub, got = m.get("sub"), m.get("got")
         kind = m["kind"]
@@ -120,6 +130,10 @@ def pair_oracle(case):
             bad(m, "the receiver reports an error on a stream nobody reset", rst=sorted(rst))
         if case.get("finished") and undisturbed and sub.get("end") and sub.get("err") is None and m.get("recv_done") and not got.get("end"):
             bad(m, "everything was submitted with END_STREAM, nobody reset the stream, the receiver is done, but no clean end was reported")
+        if (quiescent and undisturbed and sub.get("end") and sub.get("err") is None and m.get("send_done") and got.get("head") is not None
+                and got.get("len") == sub.get("len") and not got.get("end") and not got.get("err")):
+            bad(m, "everything incl. END_STREAM was submitted, all octets were delivered, both endpoints and the transports are idle, "
+                   "but the end of the message was never reported (END_STREAM / trailers lost)")
         # wire view of the same message
         direction = "c2s" if kind == "request" else "s2c"
         w = _wire_of(case, direction, sid)
@@ -167,15 +181,38 @@ def pair_stats(cases):
 
 
 def corpus_pair():
+    """two-endpoint replays: {"kind": "pair", "seed", "i", "steps"}"""
     out = []
     if os.path.isdir(CORPUS):
         for fn in sorted(os.listdir(CORPUS)):
             if fn.endswith(".json"):
                 with open(os.path.join(CORPUS, fn)) as f:
                     d = json.load(f)
+                if d.get("kind", "pair") != "pair":
+                    continue
                 d["file"] = fn
                 out.append(d)
     return out
+
+
+def corpus_conn():
+    """single-endpoint op lists ({"kind": "conn", "cfg", "trace"}) re-run through `conn --replay`"""
+    scs = []
+    if os.path.isdir(CORPUS):
+        for fn in sorted(os.listdir(CORPUS)):
+            p = os.path.join(CORPUS, fn)
+            if not fn.endswith(".json"):
+                continue
+            with open(p) as f:
+                d = json.load(f)
+            if d.get("kind") != "conn":
+                continue
+            rc, out = common.run_harness("conn", ["--replay", p, "--snap", 1], timeout=300)
+            got, _ = sendflow.load_scenarios(out)
+            for sc in got:
+                sc["corpus"] = fn
+                scs.append(sc)
+    return scs
 
 
 def oracle_pair(rep, tier, seed):
@@ -326,27 +363,29 @@ def labels_of_scenario(sc):
         return "(%d, (%d, %d, %s))" % (sid, kind, n, common.coq_bool(eos))
 
     UNK = 4294967295
-    sched = set()   # streams whose next popped RST_STREAM was made from a scheduled reset
+    sched = set()   # records whose next popped RST_STREAM was made from a scheduled reset
+    keymap = {}     # serial -> stream id
     for st in sc["trace"]:
         for e in st.get("ev", []):
             name, a = e[0], e[2:]
             if name == "store.insert":
                 live.add(a[0])
+                keymap[a[0]] = a[1]
                 add("LNew %d" % a[0])
             elif name == "store.remove":
                 if a[0] in live:
                     live.discard(a[0])
                     add("LRemove %d" % a[0])
             elif name == "prio.send_data":
-                sid, streaming, sz, eos = a[1], a[2], a[12], a[13]
-                o = off.get(sid, 0)
+                key, sid, streaming, sz, eos = a[0], a[1], a[2], a[12], a[13]
+                o = off.get(key, 0)
                 ok = streaming == 1 and sz <= 2147483647
-                add("LSendData %d %s (patt %d %d %d %d) %s" % (sid, common.coq_bool(streaming), sid, role_who, o, min(sz, 3000000), common.coq_bool(eos)),
+                add("LSendData %d %s (patt %d %d %d %d) %s" % (key, common.coq_bool(streaming), sid, role_who, o, min(sz, 3000000), common.coq_bool(eos)),
                     "(Some (%d, %d))" % (a[9], UNK), None)
                 if ok:
-                    off[sid] = o + sz
+                    off[key] = o + sz
             elif name == "prio.queue_frame":
-                sid, kind, eos, info, buffered, extra = a[1], a[2], a[3], a[4], a[5], a[6]
+                key, kind, eos, info, buffered, extra = a[0], a[2], a[3], a[4], a[5], a[6]
                 if kind == 1:
                     f = "(FHeaders %s [] %s)" % ("HkInfo" if info else "HkHead", common.coq_bool(eos))
                 elif kind == 2:
@@ -355,28 +394,28 @@ def labels_of_scenario(sc):
                     f = "(FReset %d)" % extra
                 else:
                     continue          # DATA: reported by prio.send_data
-                add("LQueue %d %s" % (sid, f), "(Some (%d, %d))" % (buffered, UNK))
+                add("LQueue %d %s" % (key, f), "(Some (%d, %d))" % (buffered, UNK))
             elif name == "prio.clear_queue":
-                add("LClear %d" % a[1])
+                add("LClear %d" % a[0])
             elif name == "prio.pop_data":
-                sid, avail, win, sz, max_len, ln, eos = a[1], a[7], a[6], a[12], a[13], a[14], a[15]
+                key, avail, win, sz, max_len, ln, eos = a[0], a[7], a[6], a[12], a[13], a[14], a[15]
                 eos_out = bool(eos) and ln >= sz
-                add("LPop %d %d %s %s" % (sid, max_len, Zs(avail), Zs(win)), "(Some (%d, %d))" % (a[9], UNK),
-                    "(Some [%s])" % sig(sid, 0, ln, eos_out))
+                add("LPop %d %d %s %s" % (key, max_len, Zs(avail), Zs(win)), "(Some (%d, %d))" % (a[9], UNK),
+                    "(Some [%s])" % sig(key, 0, ln, eos_out))
             elif name == "prio.pop_sched_reset":
-                sched.add(a[1])
+                sched.add(a[0])
             elif name == "prio.pop_other":
-                sid, kind, eos, buffered, extra = a[1], a[2], a[3], a[4], a[5]
-                if kind == 3 and sid in sched:
-                    sched.discard(sid)
-                    add("LPopReset %d %d" % (sid, extra), None, "(Some [%s])" % sig(sid, 3, 0, False))
+                key, kind, eos, buffered, extra = a[0], a[2], a[3], a[4], a[5]
+                if kind == 3 and key in sched:
+                    sched.discard(key)
+                    add("LPopReset %d %d" % (key, extra), None, "(Some [%s])" % sig(key, 3, 0, False))
                 elif kind in (1, 2, 3):
-                    add("LPop %d 0 0%%Z 0%%Z" % sid, "(Some (%d, %d))" % (buffered, UNK),
-                        "(Some [%s])" % sig(sid, kind, 0, bool(eos) if kind == 1 else False))
+                    add("LPop %d 0 0%%Z 0%%Z" % key, "(Some (%d, %d))" % (buffered, UNK),
+                        "(Some [%s])" % sig(key, kind, 0, bool(eos) if kind == 1 else False))
                 else:
                     add("LUnexpected_pop_kind_%d" % kind)
             elif name == "prio.pop_drop_push":
-                add("LPopDropPush %d" % a[1])
+                add("LPopDropPush %d" % a[0])
             elif name == "prio.reclaim":
                 add("LReclaim")
             elif name == "codec.data_done":
@@ -385,7 +424,7 @@ def labels_of_scenario(sc):
     for st in sc["trace"][-1:]:
         sn = st.get("snap")
         if sn and not sn["conn"].get("conn_error") and "in_flight_data_frame" in sn["conn"]:
-            ss = ["(%d, (%d, %d))" % (s["id"], s["buffered_send_data"], s.get("pending_send_len", 0)) for s in sn["streams"] if "pending_send_len" in s]
+            ss = ["(%d, (%d, %d))" % (s["serial"], s["buffered_send_data"], s.get("pending_send_len", 0)) for s in sn["streams"] if "pending_send_len" in s and "serial" in s]
             if len(ss) == len(sn["streams"]):
                 fin = "(Some (%d, [%s]))" % (sn["conn"]["in_flight_data_frame"], "; ".join(ss))
     wd = []
@@ -393,12 +432,13 @@ def labels_of_scenario(sc):
         for f in st["out"]:
             if f["t"] == "DATA" and f.get("pad", -1) < 0:
                 wd.append("(%d, %d, %d)" % (f["sid"], f["len"], f.get("sum", 0)))
-    return 1024, labels, fin, "(Some [%s])" % "; ".join(wd), counts
+    km = "[%s]" % "; ".join("(%d, %d)" % kv for kv in sorted(keymap.items()))
+    return (1024, km), labels, fin, "(Some [%s])" % "; ".join(wd), counts
 
 
 def coq_case(sc):
     chain, labels, fin, wd, counts = labels_of_scenario(sc)
-    return "(%d, [%s], %s, %s)" % (chain, ";\n    ".join(labels), fin, wd), counts, len(labels)
+    return "((%d, %s, [%s], %s, %s) : case_t)" % (chain[0], chain[1], ";\n    ".join(labels), fin, wd), counts, len(labels)
 
 
 def hooks_present():
@@ -417,6 +457,7 @@ def correspond_datapath(rep, tier, seed, profiles=("flow", "bp", "mixed", "reset
     per = 40 if tier == "quick" else 800
     steps = 100 if tier == "quick" else 140
     all_cases, all_scs, hist = [], [], {}
+    all_scs.extend(corpus_conn())
     for pi, prof in enumerate(profiles):
         scs, _ = sendflow.gen_scenarios(seed * 6151 + pi, per, steps, prof)
         for sc in scs:
